@@ -112,6 +112,8 @@ TUpdate ==
        \* the step length recorded for this pass is in [0,1]
        /\ P("C07") => (FGe(e.alpha, FZero) /\ FLe(e.alpha, FOne))
        /\ (e.alpha_zero <=> alphaZero)
+       \* C04: the clock reading used by the time-limit test never goes backwards
+       /\ (P("C04") /\ info.valid) => FGe(e.time, info.time)
   /\ UNCHANGED <<c, pinfo, rowsOk, nruns>>
 
 TPrintRow ==
@@ -261,6 +263,9 @@ DoneOK(d) ==
   /\ st = sol.status /\ d.iterations = sol.iterations
   \* --- C04: a terminal status, within the iteration budget
   /\ P("C04") => (st \in TerminalStatuses /\ d.iterations <= conf.maxiter)
+  \* --- C04: once the time limit has been exceeded (an injected sleep longer than the limit during
+  \*     pass c.sleep_iter) the solve stops at the next iteration boundary at the latest
+  /\ (P("C04") /\ c.sleep_iter >= 0) => d.iterations <= c.sleep_iter + 1
   \* --- C03: vector lengths are the user's n and m
   /\ P("C03") => d.lens = <<d.n, d.m, d.m>>
   \* --- C02: objective values are NaN exactly for infeasibility verdicts
